@@ -32,7 +32,7 @@ type Op struct {
 	N    int     `json:"n,omitempty"`
 	I    int     `json:"i,omitempty"`
 	J    int     `json:"j,omitempty"`
-	Form int     `json:"form,omitempty"` // sub: 0 s[i:j] 1 s[i:] 2 s[:j] 3 s[:]
+	Form int     `json:"form,omitempty"` // sub: 0 s[i:j] 1 s[i:] 2 s[:j] 3 s[:] 4 plain assignment
 	Vals []int32 `json:"vals,omitempty"`
 	Str  string  `json:"str,omitempty"`
 	Oob  bool    `json:"oob,omitempty"` // the step is expected to fail with a run-time error
@@ -145,7 +145,7 @@ func genHistory(rt *rapid.T) *History {
 			case c < 215:
 				op, ok = Op{Op: "nil", Dst: dst}, true
 			case c < 450:
-				form := rapid.IntRange(0, 3).Draw(rt, "form")
+				form := rapid.IntRange(0, 4).Draw(rt, "form") // 4: a plain assignment, the slice header is copied
 				i := rx.Range(rt, "i", 0, s.n)
 				hi := s.n
 				if !s.isNil && s.capacity > s.n && (form == 0 || form == 2) && rx.Chance(rt, "extend", 1, 2) {
@@ -154,10 +154,10 @@ func genHistory(rt *rapid.T) *History {
 					hi = s.capacity
 				}
 				j := rx.Range(rt, "j", i, hi)
-				if form == 1 || form == 3 {
+				if form == 1 || form == 3 || form == 4 {
 					j = s.n
 				}
-				if form == 2 || form == 3 {
+				if form == 2 || form == 3 || form == 4 {
 					i = 0
 				}
 				if s.isNil && (i != 0 || j != 0) {
@@ -362,6 +362,8 @@ func (h *History) script() string {
 				e = fmt.Sprintf("s%d[%s:]", op.Src, i)
 			case 2:
 				e = fmt.Sprintf("s%d[:%s]", op.Src, j)
+			case 4:
+				e = fmt.Sprintf("s%d", op.Src)
 			default:
 				e = fmt.Sprintf("s%d[:]", op.Src)
 			}
@@ -469,6 +471,8 @@ func (h *History) goSlices() (out string, panicked bool) {
 				v[op.Dst] = v[op.Src][i:]
 			case 2:
 				v[op.Dst] = v[op.Src][:j]
+			case 4:
+				v[op.Dst] = v[op.Src]
 			default:
 				v[op.Dst] = v[op.Src][:]
 			}
